@@ -87,6 +87,8 @@ Proof.
 Qed.
 Lemma inv_note_skip m : INVb false (note_skip m).
 Proof. intros s; constructor; cbn; auto using sub_nil; discriminate. Qed.
+Lemma inv_note_ood m : INVb false (note_ood m).
+Proof. intros s; constructor; cbn; auto using sub_nil; discriminate. Qed.
 Lemma inv_failOnError l : INV (failOnError l).
 Proof. intros s. unfold failOnError. destruct (failed (ts s)); constructor; cbn; auto using sub_nil. Qed.
 
@@ -225,7 +227,8 @@ Section InterpInv.
     intros [v|e]; [apply IH|].
     destruct e; try apply IH.
     - destruct (inner && internal_msg m).
-      + apply inv_bind; [weak|intros _; apply IH].
+      + apply inv_bind; [weak|intros _].
+        apply inv_bind; [apply inv_note_ood|intros; apply IH].
       + apply inv_bind; [destruct (internal_msg m); weak|intros _].
         apply inv_bind; [apply inv_note_skip|intros; apply IH].
     - weak.
@@ -255,16 +258,20 @@ Section InterpInv.
                  c <- cleanup LF crun true ;;
                  t0 <- get_ts ;;
                  match c, r with
-                 | Some (XInvalid m), _ => match failed t0 with Some _ => throw (XInvalid m) | None => ret None end
+                 | None, Ok v =>
+                     match ood t0 with
+                     | Some m => match failed t0 with Some _ => throw (XInvalid m) | None => ret None end
+                     | None => ret (Some v)
+                     end
                  | Some e, Err (XInvalid m) => _ <- (if internal_msg m then mark_dirty else ret tt) ;; throw e
                  | Some e, _ => throw e
-                 | None, Ok v => ret (Some v)
                  | None, Err (XInvalid m) => match failed t0 with Some _ => throw (XInvalid m) | None => ret None end
                  | None, Err e => throw e
                  end)).
     { apply inv_bind; [apply inv_cleanup|intros c].
       apply inv_bind; [weak|intros t0].
       destruct c as [[]|]; destruct r as [v|[]]; try weak; try (destruct (failed t0); weak);
+        try (destruct (ood t0); [destruct (failed t0)|]; weak);
         (apply inv_bind; [destruct (internal_msg _); weak|intros; weak]). }
     destruct r as [v|[]]; try exact H. weak.
   Qed.
@@ -275,7 +282,7 @@ Section InterpInv.
     constructor; cbn [w rd rpd nf reg post ts with_ts].
     - exact H1.
     - intros Hn. rewrite (H2 Hn). reflexivity.
-    - intros _ Hn Hr. rewrite (H2 Hn). destruct s as [x [f c cx cl sk]]. cbn [ts skipreq failed cleanups ctx cleaning] in *.
+    - intros _ Hn Hr. rewrite (H2 Hn). destruct s as [x [f c cx cl sk od]]. cbn [ts skipreq failed cleanups ctx cleaning ood] in *.
       destruct sk; [reflexivity|]. destruct (skipreq _); [discriminate|reflexivity].
   Qed.
 
